@@ -514,7 +514,7 @@ def main(ctx):
     ctx.assumptions = ["GNU ld 2.40 and ld.lld 14 calibrate the model; any disagreement is inconclusive",
                        "GNU-unique outside COMDAT is treated as strong, as both reference linkers do"]
     tools.wild()
-    n = ctx.pick(60, 2500)
+    n = ctx.pick(60, 500)
     jobs = [f"pinned{i}" for i in range(len(pinned_cases()))] + list(range(n))
     if ctx.replay is not None:
         c = str(ctx.replay["case"])
